@@ -50,7 +50,7 @@ def types_changed(diff):
 
 
 def h_overwrite(eng, tier, lang, sym_draws, only=None, all_draws=False):
-    names = [n for n in c04_members(tier) if only is None or n.startswith(only)]
+    names = [n for n in c04_members(tier) if only is None or n.startswith(tuple(only) if isinstance(only, (list, tuple)) else only)]
     pname = names[int(eng.fresh_int(0, len(names) - 1, 'member'))]
     stage = int(eng.fresh_int(0, 1, 'stage'))
     try:
@@ -297,6 +297,15 @@ OUT = ('programs outside the families; random draws after the first N of transfo
        'C09 finding')
 
 
+# quick tier: one representative per template family for the replacement-type search (thorough: every template)
+REPLACEMENT_TEMPLATES = ['template/generic-subclass-', 'template/diamond-f11-full-global', 'template/diamond-f10-any-local',
+                         'template/block-function-plain', 'template/generic-call-init-int', 'template/generic-new-top-value',
+                         'template/abstract-generic-method-abstract', 'template/overriding-members-openfield-openmethod',
+                         'template/recursive-plain-other-str', 'template/reassign-any-A-s-seq', 'template/local-from-global-any-narrow',
+                         'template/generic-return-only-retonly-local', 'template/nested-function-generic-plain',
+                         'template/scope-without-declarations', 'template/name-role-global']
+
+
 def jobs(tier):
     out = []
     langs = ['kotlin'] if tier == 'quick' else F.LANGS      # the mutation barely depends on the language
@@ -311,10 +320,11 @@ def jobs(tier):
                               % (nd, lang), outside=OUT))
     for lang in langs:
         out.append(Job('overwrite-replacement-types-%s' % lang, h_overwrite,
-                       dict(tier=tier, lang=lang, sym_draws=nd, only='template/', all_draws=True), split_depth=3,
+                       dict(tier=tier, lang=lang, sym_draws=nd, only=REPLACEMENT_TEMPLATES if tier == 'quick' else 'template/',
+                            all_draws=True), split_depth=3,
                        functions=FUNCS, require_events=['injected'], budget_s=2400, crosscheck_every=200,
                        setup=lambda t=tier, l=lang: prebuild(t, l),
-                       bounds='template family members x stage x every outcome of the first %d random draws of transform() of any '
+                       bounds='template family members (quick: one representative per template family) x stage x every outcome of the first %d random draws of transform() of any '
                               'kind (selection draws and the first draws of the replacement-type search)' % nd, outside=OUT))
     return out
 
